@@ -4,6 +4,7 @@ go 1.16
 
 require (
 	github.com/gobwas/httphead v0.1.0
+	github.com/gobwas/pool v0.2.1
 	github.com/gobwas/ws v0.0.0
 )
 
